@@ -3,7 +3,7 @@ one JSON object: job id -> ShExC text / canonical SHACL / exception."""
 import sys, json, os, warnings
 warnings.filterwarnings("ignore")
 sys.path.insert(0, os.path.dirname(os.path.abspath(__file__)))
-sys.path.insert(0, '/repo')
+sys.path.insert(0, os.environ.get('SHEXER_REPO', '/repo'))
 import rdflib
 from rdflib.compare import to_canonical_graph
 from shexer.shaper import Shaper
